@@ -318,6 +318,44 @@ func rulesC16(c *Ctx) {
 			}
 			c.Check(same && ag.ReachableFrom(dv)[valV[0]] && !ag.ReachableFrom(valV[0])[dv], "applySchema:defaults-before-validate#"+itoa(i), as, ag.Node(dv), "defaults are applied to the same value that is validated afterwards")
 		}
+		// when the schema itself is asked whether there is anything to apply (a predicate over the *jsonschema.Schema in the
+		// condition in front of ApplyDefaults), the question must cover what ApplyDefaults covers: a predicate that walks the
+		// schema tree descends into every sub-schema - its recursive call is skipped only by nil tests, by tests of the
+		// Default / Properties members, or because an earlier descent already answered
+		for i, dv := range defV {
+			nPred := 0
+			seenPred := map[*types.Func]bool{}
+			for _, a := range ag.GuardsAt(dv) {
+				for _, pc := range as.AllCalls(a.E, false) {
+					fn := as.Callee(pc)
+					pf := c.P.FuncOf(fn)
+					if fn == nil || pf == nil || pf.Body == nil || fn.Pkg() != as.Pkg.Types || !c16TakesSchema(pf) || seenPred[fn] {
+						continue
+					}
+					seenPred[fn] = true
+					nPred++
+					c.touch(pf)
+					key := "applySchema:defaults-gate-covers-the-schema#" + itoa(i) + ":" + itoa(nPred)
+					rec := pf.CallsIn(pf.Body, fn, false)
+					if len(rec) == 0 {
+						c.Undecided(key, as, pc, "ApplyDefaults runs only if a predicate over the schema holds, and that predicate does not walk the schema tree in a way this rule can judge")
+						continue
+					}
+					bad := ""
+					for _, rcall := range rec {
+						if why := c16DescentSkippedBy(pf, fn, rcall); why != "" && bad == "" {
+							bad = why
+						}
+					}
+					c.Check(bad == "", key, pf, rec[0], "ApplyDefaults runs only if a predicate over the schema holds; that predicate descends into every sub-schema (its recursive call is skipped only by nil / Default / Properties tests)%s", func() string {
+						if bad == "" {
+							return ""
+						}
+						return ": descent depends on `" + bad + "`, so defaults declared below a sub-schema that fails this test are never applied"
+					}())
+				}
+			}
+		}
 		// every success return after Validate
 		for i, r := range successReturns(as) {
 			rv := ag.VertexOf(r)
@@ -400,6 +438,49 @@ func rulesC16(c *Ctx) {
 			st, ok := ast.Unparen(e).(*ast.StarExpr)
 			return ok && ss.ObjOf(st.X) == types.Object(p)
 		}
+		// sfView: e denotes the value sfield holds - *sfield itself, a local that is only ever a copy of it, or the variable a
+		// type switch over it binds
+		var sfView func(e ast.Expr, depth int) bool
+		sfView = func(e ast.Expr, depth int) bool {
+			if derefOf(e, sf) {
+				return true
+			}
+			id, isID := ast.Unparen(e).(*ast.Ident)
+			if !isID || depth > 3 {
+				return false
+			}
+			o := ss.ObjOf(id)
+			if o == nil {
+				return false
+			}
+			if ts := c16TypeSwitchOf(ss, o); ts != nil {
+				if x := c16TypeSwitchOperand(ts); x != nil {
+					return sfView(x, depth+1)
+				}
+				return false
+			}
+			v, isV := o.(*types.Var)
+			if !isV || v.IsField() || v.Parent() == nil || v.Parent() == v.Pkg().Scope() {
+				return false
+			}
+			for _, p := range ss.Params() {
+				if types.Object(p) == o {
+					return false
+				}
+			}
+			n := 0
+			for _, w := range Writes(ss.Body, false) {
+				if lid, ok := ast.Unparen(w.LHS).(*ast.Ident); !ok || ss.ObjOf(lid) != o {
+					continue
+				}
+				if w.RHS == nil || !sfView(w.RHS, depth+1) {
+					return false
+				}
+				n++
+			}
+			return n > 0
+		}
+		isSf := func(e ast.Expr) bool { return sfView(e, 0) }
 		getT, setT := c.FnObj(pM, "SchemaCache", "getByType"), c.FnObj(pM, "SchemaCache", "setByType")
 		getS, setS := c.FnObj(pM, "SchemaCache", "getBySchema"), c.FnObj(pM, "SchemaCache", "setBySchema")
 		// resolvedOf: the schema object whose Resolve() produced the value of variable o (nil if o is not such a variable)
@@ -432,30 +513,66 @@ func rulesC16(c *Ctx) {
 				if !isAs || len(as.Rhs) != 1 {
 					continue
 				}
-				if ta, isTA := ast.Unparen(as.Rhs[0]).(*ast.TypeAssertExpr); isTA && derefOf(ta.X, sf) && ss.ObjOf(as.Lhs[0]) != nil {
+				if ta, isTA := ast.Unparen(as.Rhs[0]).(*ast.TypeAssertExpr); isTA && isSf(ta.X) && ss.ObjOf(as.Lhs[0]) != nil {
 					cand = ss.ObjOf(as.Lhs[0])
 				}
 			}
 			provided := make([]bool, sg.N)
 			for _, candNil := range []tri{triTrue, triFalse} {
 				candNil := candNil
-				r := sg.ReachUnder(func(e ast.Expr) tri {
-					if x, trueWhenNil, isNil := NilTest(e); isNil {
-						if derefOf(x, sf) {
-							if trueWhenNil {
-								return triFalse
-							}
-							return triTrue
+				// the `case nil` of a type switch over the value is not taken when a schema was provided …
+				nilCase := make([]bool, sg.N)
+				inspectNoLit(ss.Body, func(n ast.Node) {
+					ts, ok := n.(*ast.TypeSwitchStmt)
+					if !ok {
+						return
+					}
+					if x := c16TypeSwitchOperand(ts); x == nil || !isSf(x) {
+						return
+					}
+					for _, st := range ts.Body.List {
+						cc, ok := st.(*ast.CaseClause)
+						if !ok || len(cc.List) != 1 || !isNilIdent(cc.List[0]) {
+							continue
 						}
-						if cand != nil && ss.ObjOf(x) == cand {
-							if trueWhenNil {
-								return candNil
+						for v := 0; v < sg.N; v++ {
+							if nd := sg.Node(v); nd != nil && nd.Pos() > cc.Colon && nd.End() <= cc.End() {
+								nilCase[v] = true
 							}
-							return triNot(candNil)
 						}
 					}
-					return triUnknown
-				}, nil)
+				})
+				// … and a boolean local that becomes true only there (or somewhere else that cannot be reached) is false
+				offFlags := map[types.Object]bool{}
+				var r []bool
+				for pass := 0; pass < 2; pass++ {
+					r = sg.ReachUnder(func(e ast.Expr) tri {
+						if id, isID := ast.Unparen(e).(*ast.Ident); isID && offFlags[ss.ObjOf(id)] {
+							return triFalse
+						}
+						if x, trueWhenNil, isNil := NilTest(e); isNil {
+							if isSf(x) {
+								if trueWhenNil {
+									return triFalse
+								}
+								return triTrue
+							}
+							if cand != nil && ss.ObjOf(x) == cand {
+								if trueWhenNil {
+									return candNil
+								}
+								return triNot(candNil)
+							}
+						}
+						return triUnknown
+					}, func(v int) bool { return nilCase[v] })
+					if pass == 0 {
+						offFlags = c16FlagsNeverSet(ss, sg, r)
+						if len(offFlags) == 0 {
+							break
+						}
+					}
+				}
 				for v := range r {
 					if r[v] && (cand != nil || candNil == triTrue) {
 						provided[v] = true
@@ -503,7 +620,7 @@ func rulesC16(c *Ctx) {
 					if o := ss.ObjOf(as.Rhs[0]); o != nil {
 						for _, w3 := range ss.writesToVar(ss.Body, o, false) {
 							if a3, ok := w3.(*ast.AssignStmt); ok && len(a3.Rhs) == 1 {
-								if ta, ok := ast.Unparen(a3.Rhs[0]).(*ast.TypeAssertExpr); ok && derefOf(ta.X, sf) {
+								if ta, ok := ast.Unparen(a3.Rhs[0]).(*ast.TypeAssertExpr); ok && isSf(ta.X) {
 									fromS = true
 								}
 							}
@@ -512,11 +629,18 @@ func rulesC16(c *Ctx) {
 				}
 				for _, call := range ss.AllCalls(ss.Body, false) {
 					// remarshal(*sfield, &internalSchema)
-					if fn := ss.Callee(call); fn != nil && fn.Name() == "remarshal" && len(call.Args) == 2 && derefOf(call.Args[0], sf) {
+					if fn := ss.Callee(call); fn != nil && fn.Name() == "remarshal" && len(call.Args) == 2 && isSf(call.Args[0]) {
 						if u, ok := ast.Unparen(call.Args[1]).(*ast.UnaryExpr); ok && ss.ObjOf(u.X) == src {
 							fromS = true
 						}
 					}
+				}
+				if !fromS {
+					// the same, decided per definition of the resolved schema variable: each definition either takes the value
+					// sfield holds (a type assertion / type-switch binding / copy / remarshal of it), or every path from it to
+					// this store passes a store of the variable through sfield (a store under a flag that the definition's
+					// own path sets counts)
+					fromS = c16EveryDefTied(ss, sg, src, wv, isSf, func(e ast.Expr) bool { return derefOf(e, sf) })
 				}
 				c.Check(fromS, "setSchema:resolved-from-the-advertised-schema#"+itoa(nR), ss, w.Stmt, "the resolved schema stored through rfield was produced by Resolve() on the schema that sfield holds on this path")
 			case val != nil && val == ss.VarFromCall(getT, 1):
@@ -537,7 +661,7 @@ func rulesC16(c *Ctx) {
 					if o := ss.ObjOf(call.Args[0]); o != nil {
 						for _, w3 := range ss.writesToVar(ss.Body, o, false) {
 							if a3, ok := w3.(*ast.AssignStmt); ok && len(a3.Rhs) == 1 {
-								if ta, ok := ast.Unparen(a3.Rhs[0]).(*ast.TypeAssertExpr); ok && derefOf(ta.X, sf) {
+								if ta, ok := ast.Unparen(a3.Rhs[0]).(*ast.TypeAssertExpr); ok && isSf(ta.X) {
 									okKey = true
 								}
 							}
@@ -585,16 +709,16 @@ func rulesC16(c *Ctx) {
 						}
 						for _, w3 := range ss.writesToVar(ss.Body, o, false) {
 							if a3, ok := w3.(*ast.AssignStmt); ok && len(a3.Rhs) == 1 {
-								if ta, ok := ast.Unparen(a3.Rhs[0]).(*ast.TypeAssertExpr); ok && derefOf(ta.X, sf) {
+								if ta, ok := ast.Unparen(a3.Rhs[0]).(*ast.TypeAssertExpr); ok && isSf(ta.X) {
 									return true
 								}
-								if fromSfield(ss.ObjOf(a3.Rhs[0]), depth+1) {
+								if isSf(a3.Rhs[0]) || fromSfield(ss.ObjOf(a3.Rhs[0]), depth+1) {
 									return true
 								}
 							}
 						}
 						for _, rc := range ss.AllCalls(ss.Body, false) {
-							if fn := ss.Callee(rc); fn != nil && fn.Name() == "remarshal" && len(rc.Args) == 2 && derefOf(rc.Args[0], sf) {
+							if fn := ss.Callee(rc); fn != nil && fn.Name() == "remarshal" && len(rc.Args) == 2 && isSf(rc.Args[0]) {
 								if u, ok := ast.Unparen(rc.Args[1]).(*ast.UnaryExpr); ok && ss.ObjOf(u.X) == o {
 									return true
 								}
@@ -830,4 +954,275 @@ func rhsFor(f *Func, w ast.Node, o types.Object) ast.Expr {
 		}
 	}
 	return nil
+}
+
+// c16TypeSwitchOf: the type switch that binds obj in one of its clauses (nil if obj is not such a variable).
+func c16TypeSwitchOf(f *Func, obj types.Object) *ast.TypeSwitchStmt {
+	var out *ast.TypeSwitchStmt
+	ast.Inspect(f.Body, func(n ast.Node) bool {
+		ts, ok := n.(*ast.TypeSwitchStmt)
+		if !ok || out != nil {
+			return out == nil
+		}
+		for _, st := range ts.Body.List {
+			if cc, ok := st.(*ast.CaseClause); ok {
+				if o := f.Info().Implicits[cc]; o != nil && o == obj {
+					out = ts
+				}
+			}
+		}
+		return true
+	})
+	return out
+}
+
+// c16TypeSwitchOperand: x of `switch [v :=] x.(type)`.
+func c16TypeSwitchOperand(ts *ast.TypeSwitchStmt) ast.Expr {
+	var e ast.Expr
+	switch a := ts.Assign.(type) {
+	case *ast.AssignStmt:
+		if len(a.Rhs) == 1 {
+			e = a.Rhs[0]
+		}
+	case *ast.ExprStmt:
+		e = a.X
+	}
+	if ta, ok := ast.Unparen(e).(*ast.TypeAssertExpr); ok && ta.Type == nil {
+		return ta.X
+	}
+	return nil
+}
+
+// c16FlagsNeverSet: the boolean locals of f that start false and whose every assignment of something other than false sits
+// at a vertex that reach says is not reachable.
+func c16FlagsNeverSet(f *Func, g *Graph, reach []bool) map[types.Object]bool {
+	type st struct{ ok, set bool }
+	flags := map[types.Object]*st{}
+	for _, w := range Writes(f.Body, false) {
+		id, isID := ast.Unparen(w.LHS).(*ast.Ident)
+		if !isID {
+			continue
+		}
+		v, isV := f.ObjOf(id).(*types.Var)
+		if !isV || v.IsField() {
+			continue
+		}
+		if b, isB := v.Type().Underlying().(*types.Basic); !isB || b.Kind() != types.Bool {
+			continue
+		}
+		s := flags[v]
+		if s == nil {
+			s = &st{ok: true}
+			flags[v] = s
+		}
+		if _, isSpec := w.Stmt.(*ast.ValueSpec); isSpec && w.RHS == nil {
+			continue // zero value
+		}
+		if w.RHS == nil {
+			s.ok = false
+			continue
+		}
+		if bv, isC := f.ConstBool(w.RHS); isC && !bv {
+			continue
+		}
+		if reach[g.VertexOf(w.Stmt)] {
+			s.ok = false
+		}
+		s.set = true
+	}
+	out := map[types.Object]bool{}
+	for o, s := range flags {
+		if s.ok && s.set && !f.addressTaken(o) {
+			for _, p := range f.Params() {
+				if types.Object(p) == o {
+					s.ok = false
+				}
+			}
+			if s.ok {
+				out[o] = true
+			}
+		}
+	}
+	return out
+}
+
+// c16EveryDefTied: every definition of the schema variable src that can reach vertex wv is tied to what sfield holds: it takes
+// a view of that value (isView), or every path from it to wv stores src through sfield (isStoreTarget recognises the
+// left-hand side), where a store guarded by a boolean local counts if every path from the definition to wv sets that local.
+func c16EveryDefTied(f *Func, g *Graph, src types.Object, wv int, isView func(ast.Expr) bool, isStoreTarget func(ast.Expr) bool) bool {
+	type def struct {
+		v    int
+		tied bool
+	}
+	var defs []def
+	for _, w := range Writes(f.Body, false) {
+		if id, ok := ast.Unparen(w.LHS).(*ast.Ident); !ok || f.ObjOf(id) != src {
+			continue
+		}
+		if _, isSpec := w.Stmt.(*ast.ValueSpec); isSpec && w.RHS == nil {
+			continue
+		}
+		defs = append(defs, def{g.VertexOf(w.Stmt), w.RHS != nil && isView(w.RHS)})
+	}
+	for _, call := range f.AllCalls(f.Body, false) {
+		for i, a := range call.Args {
+			if u, ok := ast.Unparen(a).(*ast.UnaryExpr); ok && u.Op == token.AND && f.ObjOf(u.X) == src {
+				fn := f.Callee(call)
+				tied := fn != nil && fn.Name() == "remarshal" && len(call.Args) == 2 && i == 1 && isView(call.Args[0])
+				defs = append(defs, def{g.VertexOf(call), tied})
+			}
+		}
+	}
+	if len(defs) == 0 {
+		return false
+	}
+	stores := map[int]bool{}
+	for _, w := range Writes(f.Body, false) {
+		if isStoreTarget(w.LHS) && w.RHS != nil && f.ObjOf(w.RHS) == src {
+			stores[g.VertexOf(w.Stmt)] = true
+		}
+	}
+	for _, d := range defs {
+		if d.tied {
+			continue
+		}
+		if from := g.ReachableFrom(d.v); !from[wv] {
+			continue
+		}
+		if len(stores) == 0 {
+			return false
+		}
+		// boolean locals that every path from this definition to wv sets to true
+		on := map[types.Object]bool{}
+		for _, w := range Writes(f.Body, false) {
+			id, isID := ast.Unparen(w.LHS).(*ast.Ident)
+			if !isID || w.RHS == nil {
+				continue
+			}
+			if bv, isC := f.ConstBool(w.RHS); !isC || !bv {
+				continue
+			}
+			o := f.ObjOf(id)
+			setsIt := func(v int) bool {
+				nd := g.Node(v)
+				if nd == nil {
+					return false
+				}
+				for _, w2 := range Writes(nd, false) {
+					if id2, ok := ast.Unparen(w2.LHS).(*ast.Ident); ok && f.ObjOf(id2) == o && w2.RHS != nil {
+						if b2, isC2 := f.ConstBool(w2.RHS); isC2 && b2 {
+							return true
+						}
+					}
+				}
+				return false
+			}
+			if through, _ := g.MustPass(d.v, []int{wv}, setsIt); through {
+				// … and nothing sets it back
+				back := false
+				for _, w2 := range Writes(f.Body, false) {
+					if id2, ok := ast.Unparen(w2.LHS).(*ast.Ident); ok && f.ObjOf(id2) == o {
+						if _, isSpec := w2.Stmt.(*ast.ValueSpec); isSpec {
+							continue
+						}
+						if b2, isC2 := f.ConstBool(w2.RHS); w2.RHS == nil || !isC2 || !b2 {
+							back = true
+						}
+					}
+				}
+				if !back {
+					on[o] = true
+				}
+			}
+		}
+		// under "those flags are true", is wv reachable without passing a store through sfield and without passing another
+		// definition of src?
+		others := map[int]bool{}
+		for _, d2 := range defs {
+			if d2.v != d.v {
+				others[d2.v] = true
+			}
+		}
+		r := g.ReachUnder(func(e ast.Expr) tri {
+			if id, ok := ast.Unparen(e).(*ast.Ident); ok && on[f.ObjOf(id)] {
+				return triTrue
+			}
+			return triUnknown
+		}, func(v int) bool { return stores[v] || others[v] })
+		if r[wv] {
+			return false
+		}
+	}
+	return true
+}
+
+// c16TakesSchema: some parameter of f is a (pointer to a) jsonschema Schema.
+func c16TakesSchema(f *Func) bool {
+	for _, p := range f.NonRecvParams() {
+		if nm := namedOf(p.Type()); nm != nil && nm.Obj().Name() == "Schema" && nm.Obj().Pkg() != nil && strings.HasSuffix(nm.Obj().Pkg().Path(), "jsonschema") {
+			return true
+		}
+	}
+	return false
+}
+
+// c16DescentSkippedBy: a condition under which the recursive call rcall of the schema predicate self is not evaluated and
+// that is not a nil test, a test of the Default / Properties members or an earlier descent ("" if there is none).
+func c16DescentSkippedBy(f *Func, self *types.Func, rcall *ast.CallExpr) string {
+	allowed := func(e ast.Expr) bool {
+		in, _ := stripNot(e)
+		if _, _, ok := NilTest(in); ok {
+			return true
+		}
+		ok := false
+		ast.Inspect(in, func(n ast.Node) bool {
+			switch x := n.(type) {
+			case *ast.SelectorExpr:
+				if fv, isV := f.ObjOf(x).(*types.Var); isV && fv.IsField() && (fv.Name() == "Default" || fv.Name() == "Properties") {
+					ok = true
+				}
+			case *ast.CallExpr:
+				if f.Callee(x) == self {
+					ok = true
+				}
+			}
+			return !ok
+		})
+		return ok
+	}
+	// operands evaluated before the call inside its own condition
+	var child ast.Node = rcall
+	for {
+		par := f.ParentOf(child)
+		switch p := par.(type) {
+		case *ast.ParenExpr:
+			child = p
+			continue
+		case *ast.UnaryExpr:
+			child = p
+			continue
+		case *ast.BinaryExpr:
+			if (p.Op == token.LAND || p.Op == token.LOR) && p.Y == child {
+				var atoms []Atom
+				splitAtoms(p.X, true, &atoms)
+				for _, a := range atoms {
+					if !allowed(a.E) {
+						return exprStr(a.E)
+					}
+				}
+			}
+			if p.Op == token.LAND || p.Op == token.LOR {
+				child = p
+				continue
+			}
+		}
+		break
+	}
+	g := f.Graph()
+	for _, a := range g.GuardsAt(g.VertexOf(rcall)) {
+		if !allowed(a.E) {
+			return exprStr(a.E)
+		}
+	}
+	return ""
 }
